@@ -254,6 +254,16 @@ def guarded_ps(fn, site_bb, good_edges):
     return False
 
 
+def range_bounds(v):
+    """(inclusive?, start node, end node) of a range value: the `a..b` aggregate, or `a..=b`, which MIR spells `RangeInclusive::new(a, b)`"""
+    v = peel(v)
+    if v.kind == "agg" and v.d["agg"].get("adt") in ("std::ops::Range", "std::ops::RangeInclusive") and len(v.kids) >= 2:
+        return (v.d["agg"]["adt"] == "std::ops::RangeInclusive", v.kids[0], v.kids[1])
+    if v.kind == "call" and v.d["term"].get("name") == "new" and "RangeInclusive" in ((v.d["term"].get("self_ty") or "") + (v.d["term"].get("resolved") or v.d["term"].get("callee") or "")) and len(v.kids) == 2:
+        return (True, v.kids[0], v.kids[1])
+    return None
+
+
 def contradicted_edges(t, b, keep):
     """edges (b, target) of switch terminator t that cannot be taken when the discriminant is one of `keep`: a target shared with a kept
     value (several variants matched by one arm) stays"""
